@@ -73,18 +73,15 @@ Theorem C17_analyze_lcom_medium_threshold : forall file,
   analyze_lcom_medium_threshold file = eff None file domain_DefaultLCOMMediumThreshold.
 Proof. exact lcom_medium_threshold_full. Qed.
 
-(* [cbo] low_threshold / medium_threshold: the request carries the defaults and `> 0` counts them as given (F6) *)
-Theorem C17_analyze_cbo_thresholds_refuted :
-  (exists v, analyze_cbo_low_threshold (Some v) <> eff None (Some v) domain_DefaultCBOLowThreshold) /\
-  (exists v, analyze_cbo_medium_threshold (Some v) <> eff None (Some v) domain_DefaultCBOMediumThreshold).
-Proof. exact cbo_thresholds_refuted. Qed.
+(* [cbo] low_threshold / medium_threshold: the request carries the defaults, which the merge does not count as
+   given (before fix: f36bff9 `> 0` counted them as given and the file was never read: F6) *)
+Theorem C17_analyze_cbo_low_threshold : forall file,
+  analyze_cbo_low_threshold file = eff None file domain_DefaultCBOLowThreshold.
+Proof. exact cbo_low_threshold_full. Qed.
 
-Theorem C17_analyze_cbo_thresholds_partial : forall file,
-  ((forall v, file = Some v -> v = domain_DefaultCBOLowThreshold) ->
-   analyze_cbo_low_threshold file = eff None file domain_DefaultCBOLowThreshold) /\
-  ((forall v, file = Some v -> v = domain_DefaultCBOMediumThreshold) ->
-   analyze_cbo_medium_threshold file = eff None file domain_DefaultCBOMediumThreshold).
-Proof. exact cbo_thresholds_partial. Qed.
+Theorem C17_analyze_cbo_medium_threshold : forall file,
+  analyze_cbo_medium_threshold file = eff None file domain_DefaultCBOMediumThreshold.
+Proof. exact cbo_medium_threshold_full. Qed.
 
 (* ---- check --max-complexity / [complexity] max_complexity -----------------------------------------------------
    full for positive file values; 0 is the documented "no limit" marker (it is what `pyscn init` writes) and, like a
@@ -185,8 +182,8 @@ Print Assumptions C17_analyze_complexity_low_threshold.
 Print Assumptions C17_analyze_complexity_medium_threshold.
 Print Assumptions C17_analyze_lcom_low_threshold.
 Print Assumptions C17_analyze_lcom_medium_threshold.
-Print Assumptions C17_analyze_cbo_thresholds_refuted.
-Print Assumptions C17_analyze_cbo_thresholds_partial.
+Print Assumptions C17_analyze_cbo_low_threshold.
+Print Assumptions C17_analyze_cbo_medium_threshold.
 Print Assumptions C17_check_max_complexity.
 Print Assumptions C17_check_max_complexity_nonpositive_file.
 Print Assumptions C17_min_severity_needs_explicit_tracking.
